@@ -86,6 +86,17 @@ where R: EucRing, for<'x> &'x R: EucRingOps<R> {
     out.join(" ")
 }
 
+fn parse_json_code(s: &str) -> Option<PD> {
+    let nums: Vec<usize> = s.split(|c: char| !c.is_ascii_digit()).filter(|x| !x.is_empty()).map(|x| x.parse().ok()).collect::<Option<Vec<_>>>()?;
+    if nums.is_empty() || nums.len() % 4 != 0 { return None; }
+    Some(nums.chunks(4).map(|c| [c[0], c[1], c[2], c[3]]).collect())
+}
+fn resource(name: &str) -> Option<PD> {
+    let repo = std::env::var("VERIF_REPO").unwrap_or("/repo".into());
+    let s = std::fs::read_to_string(format!("{}/yui-link/resources/links/{}.json", repo, name)).ok()?;
+    parse_json_code(&s)
+}
+
 fn run_case(line: &str) -> String {
     let parts: Vec<&str> = line.split(';').collect();
     let head: Vec<&str> = parts[0].split_whitespace().collect();
@@ -175,6 +186,28 @@ fn main() {
                 let len = (s - 1) + r.below(8) as usize;
                 let pd = random_braid(&mut r, s, len.max(s - 1));
                 cases.push(format!("lee ; {}", link_str(&Link::from_pd_code(pd))));
+            }
+            // table knots and links of 7-8 crossings from the repository's resources (generator-side JSON parser):
+            // pivots with unit coefficients other than +-1 (2 = 2X - h after neck cutting) only occur from about
+            // 7 crossings on; Lee rank over Q, ss over Q[H] / F3[H] and c = 2, 3 against a relabelled, reordered copy
+            let kn: &[&str] = if thorough { &["7_3", "7_6", "7_7", "8_1", "8_5", "8_19", "8_20", "8_21", "9_42", "9_46"] }
+                              else { &["7_7", "8_5", "8_20", "8_21"] };
+            for n in kn {
+                if let Some(pd) = resource(n) {
+                    let l = Link::from_pd_code(pd.clone());
+                    let pd2 = relabel(&pd, &mut r);
+                    let m = Link::from_pd_code(shuffle_crossings(&pd2, &mut r));
+                    cases.push(format!("lee ; {}", link_str(&l)));
+                    cases.push(format!("ssh Q ; {} ; {}", link_str(&l), link_str(&m)));
+                    cases.push(format!("ssh F3 ; {} ; {}", link_str(&l), link_str(&m)));
+                    cases.push(format!("ss 3 ; {} ; {}", link_str(&l), link_str(&m)));
+                    let signs: String = guarded(|| l.crossing_signs()).unwrap_or_default().iter().map(|s| if s.is_positive() { '+' } else { '-' }).collect();
+                    cases.push(format!("cyc {} ; {}", if signs.is_empty() { "0".to_string() } else { signs }, link_str(&l)));
+                }
+            }
+            let ln: &[&str] = if thorough { &["L7a1", "L7n1", "L8a1", "L8a8", "L8n1", "L8n3", "L6a4", "L8a20"] } else { &["L7a1", "L8a1", "L8n1", "L6a4"] };
+            for n in ln {
+                if let Some(pd) = resource(n) { cases.push(format!("lee ; {}", link_str(&Link::from_pd_code(pd)))); }
             }
             cases.push(format!("lee ; {}", link_str(&Link::empty())));
             cases.push(format!("lee ; {}", link_str(&Link::unknot())));
